@@ -15,6 +15,7 @@
 #undef private
 #undef protected
 #include "system/Mutex.h"
+#include "util/TimeUtilityFunctions.h"
 #include "system/SetupSystem.h"
 #include "vsched.h"
 #include "mjson.h"
@@ -178,9 +179,55 @@ static int Explore(uint32 iters, int nt, int nops, uint32 seed0, const char * ou
    if ((stranded > 0)||(vs::S.hung)) _exit(0);
    return 0;
 }
+// ---------------------------------------------------------------------------------------------- free-running stress (no scheduler)
+// Real threads, real concurrency: covers what the serialising scheduler cannot interleave - the inside of one "atomic" operation.
+// Every round one object is shared by all threads (copies taken under a lock), then all threads drop their reference at the same
+// moment (spin barrier); the object must be recycled exactly once per round, and never while a copy still exists.
+#include <atomic>
+static std::atomic<int> g_recycles(0), g_arrived(0), g_phase(0); static std::atomic<bool> g_stop(false);
+class CountingPool : public Pool3 {
+public:
+   CountingPool(uint32 maxPool) : Pool3(maxPool) {}
+   virtual void RecycleObject(void * obj) {g_recycles++; Pool3::RecycleObject(obj);}
+};
+static void Barrier(int nt, int & myPhase) {myPhase++; if (++g_arrived == nt) {g_arrived = 0; g_phase = myPhase;} else while ((g_phase.load() < myPhase)&&(!g_stop.load())) {/* spin */}}
+static int Stress(int seconds, int nt, uint32 seed, const char * outFile)
+{
+   FILE * out = fopen(outFile, "w"); if (!out) return 2;
+   CountingPool * pool = new CountingPool(seed%4); Mailbox * mb = new Mailbox; std::atomic<long> rounds(0), bad(0); std::string firstBad; Mutex badLock;
+   const uint64 endAt = GetRunTime64()+SecondsToMicros(seconds);
+   std::vector<std::thread> ths;
+   for (int t=0; t<nt; t++) ths.emplace_back([&, t]() {
+      int phase = 0; ObjRef mine;
+      while (!g_stop.load()) {
+         if (t == 0) {Obj * o = pool->ObtainObject(); o->state = 42; g_recycles = 0; DECLARE_MUTEXGUARD(mb->m); mb->slot = ObjRef(o);}
+         Barrier(nt, phase);
+         {DECLARE_MUTEXGUARD(mb->m); mine = mb->slot;}                       // everybody takes a counted copy
+         Barrier(nt, phase);
+         if (t == 0) {DECLARE_MUTEXGUARD(mb->m); mb->slot.Reset();}          // the mailbox's own reference goes first
+         if ((mine())&&(mine()->state != 42)) {bad++; DECLARE_MUTEXGUARD(badLock); if (firstBad.empty()) firstBad = "an object was recycled while a thread still held a counted reference";}
+         Barrier(nt, phase);
+         mine.Reset();                                                        // ... then all threads drop theirs at the same moment
+         Barrier(nt, phase);
+         if (t == 0) {
+            const int r = g_recycles.load(); rounds++;
+            if (r != 1) {bad++; DECLARE_MUTEXGUARD(badLock); if (firstBad.empty()) {char b[128]; snprintf(b, sizeof(b), "after every reference was dropped the object had been recycled %d times (expected exactly once)", r); firstBad = b;}}
+            if ((GetRunTime64() >= endAt)||(bad.load() > 0)) g_stop = true;
+         }
+         Barrier(nt, phase);
+      }
+   });
+   for (size_t k=0; k<ths.size(); k++) ths[k].join();
+   mj::Value sum = mj::Value::Obj(); sum.set("summary", mj::Value::Bool(true)).set("rounds", mj::Value::Int(rounds.load())).set("threads", mj::Value::Int(nt)).set("violated", mj::Value::Int(bad.load() > 0 ? 1 : 0));
+   if (bad.load() > 0) {mj::Value rec = mj::Value::Obj(); mj::Value va = mj::Value::Arr(); va.push(mj::Value::Str(firstBad)); rec.set("violations", va).set("round", mj::Value::Int(rounds.load())).set("threads", mj::Value::Int(nt)); fprintf(out, "%s\n", mj::ToString(rec).c_str());}
+   fprintf(out, "%s\n", mj::ToString(sum).c_str()); fclose(out); printf("%s\n", mj::ToString(sum).c_str()); fflush(stdout);
+   _exit(0);   // after a double recycle the pool may be corrupt: do not run destructors
+}
+
 int main(int argc, char ** argv)
 {
    CompleteSetupSystem css; vs::Install();
+   if ((argc >= 6)&&(!strcmp(argv[1], "stress"))) return Stress(atoi(argv[2]), atoi(argv[3]), (uint32) atol(argv[4]), argv[5]);
    if ((argc >= 6)&&(!strcmp(argv[1], "pool"))) return (atoi(argv[3]) == 2) ? PoolReplay<Pool2>(argv[2], (uint32) atol(argv[4]), argv[5]) : PoolReplay<Pool3>(argv[2], (uint32) atol(argv[4]), argv[5]);
    if ((argc >= 7)&&(!strcmp(argv[1], "explore"))) return Explore((uint32) atol(argv[2]), atoi(argv[3]), atoi(argv[4]), (uint32) atol(argv[5]), argv[6], (argc > 7) ? argv[7] : NULL, (argc > 8) ? (uint32) atol(argv[8]) : 50);
    fprintf(stderr, "usage: rc pool <behaviours> <N> <maxpool> <report> | rc explore <iters> <threads> <ops> <seed> <report> [trace [n]]\n"); return 2;
